@@ -3,6 +3,8 @@ CONSTANTS
   Models <- MCModels
   InputSets <- MCInputSets
   Pids = {"p1"}
+  TopPids = {"p1"}
+  StartAny = FALSE
   MaxActions = 1
   ActionKinds = {"complete", "submit", "remove", "skip", "error", "abort", "back", "cancel"}
   ErrCodes = {"e1", "e2"}
